@@ -24,7 +24,9 @@ LEVEL_NOTE = ('Sampling, not exhaustive. Equality of types is judged on a canoni
               'same name. Cast expressions (REAL(x, kind)) are confined to a slice because unpickling them raises (known finding).')
 RULE = ('Case = one FP-parsed source (45 % fgenlab modules, 35 % hostilegen files, 8 % repository sources, 12 % a two-file project '
         'parsed and enriched by the real Scheduler); targets: the Sourcefile, every Module, up to 4 routines (module procedures, '
-        'free routines, internal procedures); each target is round-tripped twice. Non-trivial = >= 2 targets round-tripped and '
+        'free routines, internal procedures); each target is round-tripped (twice when it contains no Module or in the repickle slice). '
+        'Constructs that hit known pickling defects (casts, internal procedures, INTERFACE bodies, derived types, keyword '
+        'arguments of intrinsics, STOP, enriched imports) are confined to one slice each (5-9 %). Non-trivial = >= 2 targets round-tripped and '
         '>= 20 symbols compared; distinct = hash of the source text.')
 CASES = {'quick': 360, 'thorough': 4500}
 MIN_NONTRIVIAL = {'quick': 180, 'thorough': 2200}
